@@ -238,9 +238,58 @@ def variants_of(relfile, source):
                         yield 'guard', f'{relfile}:{st.lineno} {fn.name}: rest of the function moved into else', ast.unparse(ast.fix_missing_locations(t))
 
 
+def kwarg_variants(root=None):
+    """kwarg: the last positional argument of a call that certainly refers to a package function is passed by keyword."""
+    from .normalize import _resolve_callee
+    model = Model(root)
+    base = pathlib.Path(root) if root else REPO
+    by_file = {}
+    for f in model.all_funcs():
+        node = getattr(f, 'orig', None) or f.node
+        rel = 'concepts/' + f.module.relpath.split('concepts/', 1)[-1] if 'concepts/' in f.module.relpath else f.module.relpath
+        for call in ast.walk(node):
+            if not isinstance(call, ast.Call) or not call.args or any(isinstance(a, ast.Starred) for a in call.args):
+                continue
+            try:
+                target, skip = _resolve_callee(model, f, call)
+            except Exception:
+                continue
+            if target is None:
+                continue
+            a = target.node.args
+            if a.posonlyargs or a.vararg:
+                continue
+            params = [x.arg for x in a.args][skip:]
+            k = len(call.args) - 1
+            if k >= len(params) or any(kw.arg == params[k] for kw in call.keywords):
+                continue
+            by_file.setdefault(rel, []).append((call.lineno, call.col_offset, params[k], f.name))
+    for rel, sites in sorted(by_file.items()):
+        path = base / rel
+        if not path.exists():
+            continue
+        src_text = path.read_text()
+        for lineno, col, pname, fname in sorted(set(sites)):
+            t = ast.parse(src_text)
+            hit = [n for n in ast.walk(t) if isinstance(n, ast.Call) and n.lineno == lineno and n.col_offset == col and n.args]
+            if len(hit) != 1:
+                continue
+            c = hit[0]
+            last = c.args.pop()
+            c.keywords.insert(0, ast.keyword(arg=pname, value=last))
+            yield 'kwarg', f'{rel}:{lineno} {fname}: last positional argument passed as {pname}=', rel, ast.unparse(ast.fix_missing_locations(t))
+
+
 def all_variants(kinds=None, root=None):
     out = []
     base = pathlib.Path(root) if root else REPO
+    if not kinds or 'kwarg' in kinds:
+        for kind, label, rel, new in kwarg_variants(root):
+            try:
+                compile(new, rel, 'exec')
+            except SyntaxError:
+                continue
+            out.append((kind, label, rel, new))
     for path in sorted((base / 'concepts').rglob('*.py')):
         rel = 'concepts/' + path.relative_to(base / 'concepts').as_posix()
         src = path.read_text()
